@@ -112,7 +112,8 @@ def build(thorough):
         obs.append(Ob(f'stream_edit[first={i}]', 'C03_stream.py', 'stream_edit', T, env=dict(VH_I1=i)))
     obs.append(Ob('stream_edit__twin', 'C03_stream.py', 'stream_edit__twin', 150, kind='twin', env={}))
     # ---- model level: regeneration of an unmodified model / single-component edits keep the unrelated records
-    EDITS = {0: 'none', 1: 'theta-init', 2: 'description', 3: 'sigma-init', 4: 'pk-statement', 5: 'model-name'}
+    EDITS = {0: 'none', 1: 'theta-init', 2: 'description', 3: 'sigma-init', 4: 'pk-statement', 5: 'model-name',
+             6: 'estimation-method'}
     for ed, en in EDITS.items():
         if thorough:
             for s0 in range(4):
